@@ -1744,10 +1744,15 @@ def _offset(
                 fcolo = a.col_offset
 
                 if (fend_lno := a.end_lineno) < lno:
+                    if fend_lno >= lno + dln:  # lines being deleted and this ends on one of them, cached bounding locations below may include a trailing comment which is going away
+                        f._touchall(False, False, True)
+
                     break  # no need to walk into something which ends before offset point, all other ASTs assumed to be before so we don't even bother with them, SEE WARNING ABOVE!
                 elif fend_lno > lno:
                     a.end_lineno = fend_lno + dln
                 elif fend_colo < colo:
+                    f._touchall(False, False, True)  # ends on the line of the offset point, cached bounding locations below may include a trailing comment on this line which is being changed
+
                     break  # SEE WARNING ABOVE!
 
                 elif (
